@@ -5,6 +5,8 @@ Claimed strength: PARTIAL.  Proved: the single-section bilinear response (`bilin
 FFT-synthesiser index logic (Lemmas/FftNoise, when present).  NOT proved (DESIGN §4 C18-b, §5): "the cascade equals
 f^-alpha to about 1 dB between the corners".  That sentence is only PROBED here on the real coefficients, with the
 documented tolerance `ripple_tol_db` below (measured worst deviation on the unchanged tree + 50 %).
+Besides freshly parameterised generators the oracle runs CALL HISTORIES (several generators sharing some parameters in one process, see
+"call histories" below; witness: seeded C18c, coefficients memoised without the sampling rate) and back-to-back band_limited_noise siblings.
 """
 from __future__ import annotations
 
@@ -43,9 +45,15 @@ ASSUMPTIONS = [
     "against the real coefficients, per-section response by theorem",
     "white-noise variance psd*fs: the scale is checked exactly, the sample variance statistically (6 sigma)",
     "theorems are over the reals; rounding is covered by the stated forward tolerances",
+    "history independence is probed, not proved: generated call histories (see RULE) in the check's own process; the fresh-state reference is the library itself, "
+    "run in a forked child of a helper interpreter that has only imported speckit (skipped with a note when the helper cannot be started; red_noise members are then unchecked)",
 ]
 RULE = ("alpha: (fs, fmin, fmax, alpha) with alpha in [0.01,2] (incl. both ends, 1.0 via pink_noise), fmax in 1e-3..1e5 Hz, span 0.001..8 decades, "
         "fs/fmax in [2, 1e4] incl. fmax = fs/2 exactly; distinct by (alpha bucket, section count, fmax=fs/2 flag, 1 Hz inside flag); non-trivial = >= 2 sections. "
+        "call histories: 3-8 alpha_noise / pink_noise / red_noise / white_noise generators built in one process that share some of (fs, fmin, fmax, alpha) and differ in "
+        "the others (same band and exponent at other rates; same fs, other exponents; same fs, bands sharing an edge or the width; mixed with exact repeats), with "
+        "get_series / get_sample calls in between; EVERY member is checked at the end (all alpha predicates on the member itself + its design quantities against the same "
+        "constructor call made alone in a fresh process); distinct by (family, members, #rates, #exponents, #bands, used flag); non-trivial = >= 2 coloured members. "
         "fftnoise: N in 2..65 and powers of two to 1024 (4096 thorough), complex spectra with non-real DC/Nyquist, non-Hermitian mirror side, zero bins, real dtype, "
         "rng seeded or None; distinct by (N, kind); non-trivial = N >= 3 and a non-zero spectrum. band_limited_noise: odd/even N, bands with edges on grid "
         "frequencies (exact binary grids), min_freq = 0, max_freq = Nyquist, single-bin and empty bands; distinct by (N, edge class); non-trivial = at least one bin "
@@ -284,6 +292,17 @@ def band_case(rng: np.random.Generator) -> Dict[str, Any]:
             "rng_none": bool(rng.integers(0, 10) == 0)}
 
 
+def band_siblings(rng: np.random.Generator, c: Dict[str, Any]) -> List[Dict[str, Any]]:
+    """calls that share all but one argument with c: other sampling rate (same samples and band), other band (same samples and rate), other length"""
+    out = []
+    nyq = c["fs"] / 2.0
+    out.append(dict(c, fs=c["fs"] * 2.0, edge_mode=9, seed=int(rng.integers(0, 2 ** 31))))
+    out.append(dict(c, lo=0.0 if rng.integers(0, 2) else c["lo"] / 2.0, hi=c["hi"], edge_mode=9, seed=int(rng.integers(0, 2 ** 31))))
+    out.append(dict(c, lo=c["lo"], hi=nyq if rng.integers(0, 2) else (c["hi"] + nyq) / 2.0, edge_mode=9, seed=int(rng.integers(0, 2 ** 31))))
+    out.append(dict(c, N=2 * c["N"] if (c["exact"] or rng.integers(0, 2)) else c["N"] + 1, edge_mode=9, seed=int(rng.integers(0, 2 ** 31))))
+    return out
+
+
 BAND_CORPUS = [
     {"N": 4096, "fs": 1000.0, "lo": 10.0, "hi": 50.0, "exact": False, "edge_mode": 6, "seed": 1, "rng_none": False},     # docstring example
     {"N": 1024, "fs": 1.0, "lo": 0.0, "hi": 0.5, "exact": True, "edge_mode": 3, "seed": 2, "rng_none": False},
@@ -324,11 +343,17 @@ class _Impulse:
         return a
 
 
-def check_alpha(P: C.Part, c: Dict[str, Any], nfreq: int = 192, impulse_max: int = 60000) -> None:
-    """everything C18 says about the 1/f^alpha shaping filter, on the real generator"""
-    rep = alpha_dump(c)
+def check_alpha(P: C.Part, c: Dict[str, Any], nfreq: int = 192, impulse_max: int = 60000, g=None, rep: Optional[Dict[str, Any]] = None,
+                pre: str = "", pristine: bool = False) -> None:
+    """everything C18 says about the 1/f^alpha shaping filter, on the real generator.
+    Without `g` the generator is constructed here from `c`.  With `g` (a member of a call HISTORY, see check_history) the very same predicates are
+    evaluated on that object as it stands at the end of the history: `rep` is then the replay of the whole history, `pre` a label for the messages,
+    and `pristine` says that nothing has been drawn from it yet (only then the impulse run goes through the member itself)."""
+    member = g is not None
+    rep = alpha_dump(c) if rep is None else rep
     fs, fmin_u, fmax_u, alpha = c["fs"], c["fmin"], c["fmax"], c["alpha"]
-    g = make_gen(c)
+    if g is None:
+        g = make_gen(c)
     a0, a1, b1c = sections(g)
     n = len(a0)
     P.cases += 1
@@ -341,7 +366,7 @@ def check_alpha(P: C.Part, c: Dict[str, Any], nfreq: int = 192, impulse_max: int
     if n >= 2:
         P.nontrivial.add(("alpha", round(alpha, 1), n, fs == 2.0 * fmax_u, inside1))
     if not (n >= 1 and np.all(np.isfinite(a0)) and np.all(np.isfinite(a1)) and np.all(np.isfinite(b1c)) and 0.0 < ge_lo <= ge_hi):
-        _viol(P, f"alpha_noise(fs={fs}, fmin={fmin_u}, fmax={fmax_u}, alpha={alpha}): no usable cascade (sections={n}, gen.fmin={ge_lo}, gen.fmax={ge_hi})",
+        _viol(P, f"{pre}alpha_noise(fs={fs}, fmin={fmin_u}, fmax={fmax_u}, alpha={alpha}): no usable cascade (sections={n}, gen.fmin={ge_lo}, gen.fmax={ge_hi})",
               {"sub": "alpha-construct"}, rep)
         return
     if c.get("pink"):                              # glue: pink_noise is alpha_noise with alpha = 1
@@ -349,18 +374,42 @@ def check_alpha(P: C.Part, c: Dict[str, Any], nfreq: int = 192, impulse_max: int
         same = np.array_equal(g1._a_coeffs, g._a_coeffs) and np.array_equal(g1._b_coeffs, g._b_coeffs) and g1._scaling == g._scaling and g.alpha == 1.0
         P.cases += 1
         if not same:
-            _viol(P, f"pink_noise(fs={fs}, fmin={fmin_u}, fmax={fmax_u}) is not alpha_noise(alpha=1): coefficients / scaling / alpha attribute differ",
+            _viol(P, f"{pre}pink_noise(fs={fs}, fmin={fmin_u}, fmax={fmax_u}) is not alpha_noise(alpha=1): coefficients / scaling / alpha attribute differ",
                   {"sub": "pink-wrapper"}, rep)
 
     # (c) white source of the generator: unit two-sided density  (variance fs)
     w0 = float(g._whitenoise.rms) ** 2 / fs
     P.cases += 1
     if not abs(w0 - 1.0) <= 8 * U:
-        _viol(P, f"alpha_noise white source: rms^2/fs = {w0!r}, expected 1 (two-sided unit density), fs={fs}", {"sub": "alpha-white-source"}, rep)
+        _viol(P, f"{pre}alpha_noise white source: rms^2/fs = {w0!r}, expected 1 (two-sided unit density), fs={fs}", {"sub": "alpha-white-source"}, rep)
 
-    # (5) per-section coefficients = the bilinear design formula, and the per-section theorems' conclusions on the real numbers
+    # (5') the generator's OWN section coefficients = the bilinear design for ITS sampling rate at the prescribed corners (forward form of (5) + (a);
+    # this is the predicate that a generator built late in a call history must satisfy exactly like one built alone).  A corner that is off by
+    # the relative amount e <= logerr moves a0 by <= 2 e a0, a1 by <= e (pi fmax_i/den + |a1|) <= 2 e a0, b1 by <= 2 e; the library's own
+    # three operations per coefficient add <= 16 u a0 (same allowance as (5)).
     ld = np.longdouble
     pi_l = ld(np.pi)
+    dp = (math.log10(fmax_u) - math.log10(fmin_u)) / n
+    i = np.arange(n)
+    exp_lo = fmin_u * 10.0 ** (dp * (i + 0.5 - alpha / 4.0))
+    exp_hi = fmin_u * 10.0 ** (dp * (i + 0.5 + alpha / 4.0))
+    logerr = 64 * U * (abs(math.log10(2 * np.pi * fmin_u)) + abs(math.log10(2 * np.pi * fmax_u)) + 1.0) * math.log(10.0) + 1e-12   # 10^x amplifies the rounding of x
+    den_o = ld(fs) + pi_l * exp_lo.astype(ld)
+    d_a0 = np.asarray((ld(fs) + pi_l * exp_hi.astype(ld)) / den_o, dtype=float)
+    d_a1 = np.asarray(-(ld(fs) - pi_l * exp_hi.astype(ld)) / den_o, dtype=float)
+    d_b1c = np.asarray(-(ld(fs) - pi_l * exp_lo.astype(ld)) / den_o, dtype=float)       # stored with the sign of the denominator polynomial
+    tol_o = (16 * U + 2 * logerr) * np.abs(d_a0)
+    P.cases += 1
+    for nm, got, exp in (("a0", a0, d_a0), ("a1", a1, d_a1), ("-b1", b1c, d_b1c)):
+        d = np.abs(got - exp)
+        j = int(np.argmax(d - tol_o))
+        if not d[j] <= tol_o[j]:
+            _viol(P, f"{pre}alpha_noise(fs={fs}, fmin={fmin_u}, fmax={fmax_u}, alpha={alpha}): stored coefficient {nm} of section {j} of {n} is {float(got[j])!r}, the bilinear "
+                     f"design for fs={fs} with corners {float(exp_lo[j])!r}..{float(exp_hi[j])!r} Hz gives {float(exp[j])!r} (tol {tol_o[j]:.3g})",
+                  {"sub": "coeff-design", "coef": nm, "history": member}, rep)
+            return
+
+    # (5) per-section coefficients = the bilinear design formula, and the per-section theorems' conclusions on the real numbers
     t_lo = 10.0 ** np.linspace(math.log10(fmin_u) - 0.3, math.log10(fmax_u) + 0.3, 5)
     t_hi = t_lo * np.array([1.0, 1.3, 4.0, 0.5, 10.0])            # includes fmax < fmin and fmax = fmin: the formula does not care
     r0, r1, r2 = g._calc_filter_coeffs(t_lo.copy(), t_hi.copy())
@@ -374,7 +423,7 @@ def check_alpha(P: C.Part, c: Dict[str, Any], nfreq: int = 192, impulse_max: int
         d = np.abs(np.asarray(got, dtype=float) - np.asarray(exp, dtype=float))
         j = int(np.argmax(d / scale))
         if not d[j] <= 16 * U * scale[j]:
-            _viol(P, f"_calc_filter_coeffs(fs={fs}, f_min={float(t_lo[j])!r}, f_max={float(t_hi[j])!r}): {nm} = {float(np.asarray(got)[j])!r}, bilinear design gives {float(exp[j])!r}",
+            _viol(P, f"{pre}_calc_filter_coeffs(fs={fs}, f_min={float(t_lo[j])!r}, f_max={float(t_hi[j])!r}): {nm} = {float(np.asarray(got)[j])!r}, bilinear design gives {float(exp[j])!r}",
                   {"sub": "coeff-formula", "coef": nm}, dict(rep, f_lo=float(t_lo[j]), f_hi=float(t_hi[j])))
             return
 
@@ -385,24 +434,19 @@ def check_alpha(P: C.Part, c: Dict[str, Any], nfreq: int = 192, impulse_max: int
     cond_hi = 16 * U * fs / (np.pi * np.maximum(sec_hi, 1e-300)) * np.maximum(1.0, np.abs(a0)) + 1e-12
 
     # (a) corner placement (DESIGN C18-a): log-equispaced with pitch dp = log10(fmax/fmin)/n, offsets -/+ alpha/4, and gen.fmin / gen.fmax are the outer ones
-    dp = (math.log10(fmax_u) - math.log10(fmin_u)) / n
-    i = np.arange(n)
-    exp_lo = fmin_u * 10.0 ** (dp * (i + 0.5 - alpha / 4.0))
-    exp_hi = fmin_u * 10.0 ** (dp * (i + 0.5 + alpha / 4.0))
     P.cases += 1
-    logerr = 64 * U * (abs(math.log10(2 * np.pi * fmin_u)) + abs(math.log10(2 * np.pi * fmax_u)) + 1.0) * math.log(10.0) + 1e-12   # 10^x amplifies the rounding of x
     for nm, got, exp, cnd in (("fmin_i", sec_lo, exp_lo, cond_lo), ("fmax_i", sec_hi, exp_hi, cond_hi)):
         rel = np.abs(got - exp) / exp
         j = int(np.argmax(rel - cnd))
         if not rel[j] <= cnd[j] + logerr:
-            _viol(P, f"alpha_noise(fs={fs}, fmin={fmin_u}, fmax={fmax_u}, alpha={alpha}): section {j} of {n} has {nm} = {float(got[j])!r}, "
+            _viol(P, f"{pre}alpha_noise(fs={fs}, fmin={fmin_u}, fmax={fmax_u}, alpha={alpha}): section {j} of {n} has {nm} = {float(got[j])!r}, "
                      f"log-equispaced placement with alpha/4 offset gives {float(exp[j])!r} (rel {rel[j]:.3g}, tol {cnd[j] + logerr:.3g})",
                   {"sub": "corner-placement", "which": nm}, rep)
             return
     P.cases += 1
     for nm, got, exp in (("gen.fmin", ge_lo, exp_lo[0]), ("gen.fmax", ge_hi, exp_hi[-1])):
         if not abs(got - exp) <= logerr * exp:
-            _viol(P, f"alpha_noise(fs={fs}, fmin={fmin_u}, fmax={fmax_u}, alpha={alpha}): {nm} = {got!r}, outer corner of the cascade is {exp!r}",
+            _viol(P, f"{pre}alpha_noise(fs={fs}, fmin={fmin_u}, fmax={fmax_u}, alpha={alpha}): {nm} = {got!r}, outer corner of the cascade is {exp!r}",
                   {"sub": "effective-corner", "which": nm}, rep)
             return
 
@@ -420,7 +464,7 @@ def check_alpha(P: C.Part, c: Dict[str, Any], nfreq: int = 192, impulse_max: int
     P.cases += len(fprobe)
     if bad.any():
         j = int(np.argmax(np.abs(H2 - cf) / cf - tolr))
-        _viol(P, f"alpha_noise(fs={fs}, fmin={fmin_u}, fmax={fmax_u}, alpha={alpha}): |H|^2 of the real cascade at f={float(fprobe[j])!r} is {float(H2[j])!r}, "
+        _viol(P, f"{pre}alpha_noise(fs={fs}, fmin={fmin_u}, fmax={fmax_u}, alpha={alpha}): |H|^2 of the real cascade at f={float(fprobe[j])!r} is {float(H2[j])!r}, "
                  f"closed form prod (Om^2+wmax_i^2)/(Om^2+wmin_i^2) gives {float(cf[j])!r} (rel tol {tolr[j]:.3g})",
               {"sub": "cascade-closed-form"}, dict(rep, f=float(fprobe[j])))
         return
@@ -431,13 +475,13 @@ def check_alpha(P: C.Part, c: Dict[str, Any], nfreq: int = 192, impulse_max: int
     exp_dc = (fmax_u / fmin_u) ** alpha
     P.cases += 3
     if not abs(dc - exp_dc) <= (dc_cond + 4 * n * logerr) * exp_dc:
-        _viol(P, f"alpha_noise(fs={fs}, fmin={fmin_u}, fmax={fmax_u}, alpha={alpha}): DC power gain of the cascade = {dc!r}, expected (fmax/fmin)^alpha = {exp_dc!r}",
+        _viol(P, f"{pre}alpha_noise(fs={fs}, fmin={fmin_u}, fmax={fmax_u}, alpha={alpha}): DC power gain of the cascade = {dc!r}, expected (fmax/fmin)^alpha = {exp_dc!r}",
               {"sub": "dc-gain"}, rep)
     if not abs(ny - 1.0) <= 64 * U * n + 1e-12:
-        _viol(P, f"alpha_noise(fs={fs}, fmin={fmin_u}, fmax={fmax_u}, alpha={alpha}): Nyquist power gain of the cascade = {ny!r}, expected 1", {"sub": "nyquist-gain"}, rep)
+        _viol(P, f"{pre}alpha_noise(fs={fs}, fmin={fmin_u}, fmax={fmax_u}, alpha={alpha}): Nyquist power gain of the cascade = {ny!r}, expected 1", {"sub": "nyquist-gain"}, rep)
     exp_sc2 = ge_hi ** (-alpha)
     if not abs(sc2 - exp_sc2) <= 64 * U * (1 + alpha * abs(math.log(ge_hi))) * exp_sc2:
-        _viol(P, f"alpha_noise(fs={fs}, fmin={fmin_u}, fmax={fmax_u}, alpha={alpha}): output scaling^2 = {sc2!r}, expected gen.fmax^-alpha = {exp_sc2!r} "
+        _viol(P, f"{pre}alpha_noise(fs={fs}, fmin={fmin_u}, fmax={fmax_u}, alpha={alpha}): output scaling^2 = {sc2!r}, expected gen.fmax^-alpha = {exp_sc2!r} "
                  f"(density continuous at the upper corner)", {"sub": "scaling"}, rep)
 
     # (b) PROBE (not a theorem): two-sided density vs f^-alpha strictly between the effective corners, and at 1 Hz
@@ -461,7 +505,7 @@ def check_alpha(P: C.Part, c: Dict[str, Any], nfreq: int = 192, impulse_max: int
         if bad.any():
             j = int(np.argmax(np.abs(dev) - tol))
             at1 = bool(fp[j] == 1.0)
-            _viol(P, f"alpha_noise(fs={fs}, fmin={fmin_u}, fmax={fmax_u}, alpha={alpha}): two-sided density at f={float(fp[j])!r} Hz is {float(S[j])!r}, f^-alpha = {float(fp[j] ** (-alpha))!r}: "
+            _viol(P, f"{pre}alpha_noise(fs={fs}, fmin={fmin_u}, fmax={fmax_u}, alpha={alpha}): two-sided density at f={float(fp[j])!r} Hz is {float(S[j])!r}, f^-alpha = {float(fp[j] ** (-alpha))!r}: "
                      f"{dev[j]:+.3f} dB (allowed {tol[j]:.3f} dB = 1.5 x worst of the reference tree; {'interior' if interior[j] else 'near a corner'}; "
                      f"effective corners {ge_lo!r}..{ge_hi!r}, {n} sections)",
                   {"sub": "density-at-1Hz" if at1 else "ripple", "interior": bool(interior[j]), "envelope": "beyond"}, dict(rep, f=float(fp[j])))
@@ -470,7 +514,7 @@ def check_alpha(P: C.Part, c: Dict[str, Any], nfreq: int = 192, impulse_max: int
             # alpha: recorded as known finding D13; only deviations beyond the measured reference envelope (above) are new violations
             j = int(np.argmax(np.abs(dev) - slack))
             P._d13 = getattr(P, "_d13", 0) + 1
-            _viol(P, f"alpha_noise(fs={fs}, fmin={fmin_u}, fmax={fmax_u}, alpha={alpha}): two-sided density at f={float(fp[j])!r} Hz deviates from f^-alpha by "
+            _viol(P, f"{pre}alpha_noise(fs={fs}, fmin={fmin_u}, fmax={fmax_u}, alpha={alpha}): two-sided density at f={float(fp[j])!r} Hz deviates from f^-alpha by "
                      f"{dev[j]:+.3f} dB (> {STRICT_RIPPLE_DB} dB; {'interior' if interior[j] else 'near a corner'}; effective corners {ge_lo!r}..{ge_hi!r}, {n} sections)",
                   {"sub": "ripple", "interior": bool(interior[j]), "envelope": "within-reference"}, dict(rep, f=float(fp[j])))
         if inside1 and 1.0 < nyq:
@@ -480,8 +524,8 @@ def check_alpha(P: C.Part, c: Dict[str, Any], nfreq: int = 192, impulse_max: int
     p = float(np.max(np.abs(b1c)))
     if p < 1.0:
         M = int(math.ceil(math.log(1e-11) / math.log(p))) + 32 if p > 0 else 64
-        if M <= impulse_max:
-            g2 = make_gen(c)
+        if M <= impulse_max and (pristine or not member):
+            g2 = g if member else make_gen(c)      # history member: the impulse goes through the member itself (its first and only use)
             g2._whitenoise = _Impulse(g2._whitenoise.rms)
             h = np.asarray(g2.get_series(M), dtype=float)
             ft = np.array([0.0, ge_lo, math.sqrt(ge_lo * ge_hi), min(ge_hi, nyq), nyq * 0.73, nyq])
@@ -497,7 +541,7 @@ def check_alpha(P: C.Part, c: Dict[str, Any], nfreq: int = 192, impulse_max: int
             P.hit("alpha:impulse-run")
             if len(h) != M or not np.all(np.abs(got - exp_h) <= tol_h):
                 j = int(np.argmax(np.abs(got - exp_h))) if len(h) == M else 0
-                _viol(P, f"alpha_noise(fs={fs}, fmin={fmin_u}, fmax={fmax_u}, alpha={alpha}).get_series on a unit impulse: transfer function at f={float(ft[j])!r} is "
+                _viol(P, f"{pre}alpha_noise(fs={fs}, fmin={fmin_u}, fmax={fmax_u}, alpha={alpha}).get_series on a unit impulse: transfer function at f={float(ft[j])!r} is "
                          f"{complex(got[j])!r}, the stored coefficients and scaling give {complex(exp_h[j])!r} (tol {tol_h:.3g})",
                       {"sub": "impulse-response"}, dict(rep, f=float(ft[j])))
 
@@ -646,6 +690,303 @@ def check_white(P: C.Part, c: Dict[str, Any]) -> None:
         _viol(P, f"white_noise(fs={fs!r}) with default psd: rms^2 = {float(g1.rms) ** 2!r}, expected fs", {"sub": "white-rms-default"}, rep)
 
 
+# ------------------------------------------------------------------------------------------------ call histories
+# The property is a statement about a FUNCTION of (fs, fmin, fmax, alpha): what a generator's filter is may not depend on which other generators
+# were built or used before it in the same process.  check_alpha builds every generator for a parameter set nobody used before; a HISTORY builds
+# several generators that share some of the parameters and differ in the others (same band and exponent at other sampling rates; same fs with
+# other exponents / other bands sharing one edge or the section count; exact repeats; red_noise / white_noise at the same fs / fmin in between),
+# draws from some of them in between, and then evaluates on EVERY member, as it stands at the end,
+#   (1) all predicates of check_alpha (own coefficients vs the bilinear design for ITS fs, corners, closed form, gains, scaling, density probe,
+#       impulse run through get_series for members nothing was drawn from) — same code, same tolerances, same D13 handling;
+#   (2) white members: rms^2 = psd * fs;
+#   (3) "is what a generator constructed ALONE in a fresh state is": the design quantities (coefficient arrays, scaling, fs/fmin/fmax/alpha, white
+#       rms) against the same constructor call made in a forked child of a helper process that has imported speckit and done nothing else.  Same
+#       code path on the same inputs, so the comparison is at the 4-ulp level (measured: bit-identical); this is the only reference used for
+#       red_noise (C18 states no formula for it, only history independence is demanded).  If the helper cannot be run the part is skipped and noted.
+HIST_QUANT = {"alpha": ("_a_coeffs", "_b_coeffs", "_scaling", "fs", "fmin", "fmax", "alpha", "_whitenoise.rms"),
+              "pink": ("_a_coeffs", "_b_coeffs", "_scaling", "fs", "fmin", "fmax", "alpha", "_whitenoise.rms"),
+              "red": ("_a", "_b", "_scaling", "fs", "fmin", "_whitenoise.rms"),
+              "white": ("rms", "fs")}
+
+
+def hist_build(s: Dict[str, Any]):
+    noise = _noise()
+    k = s["cls"]
+    if k == "alpha":
+        return noise.alpha_noise(s["fs"], s["fmin"], s["fmax"], s["alpha"], init_filter=bool(s.get("init")), seed=s.get("seed", 0))
+    if k == "pink":
+        return noise.pink_noise(s["fs"], s["fmin"], s["fmax"], init_filter=bool(s.get("init")), seed=s.get("seed", 0))
+    if k == "red":
+        return noise.red_noise(s["fs"], s["fmin"], init_filter=bool(s.get("init")), seed=s.get("seed", 0))
+    if k == "white":
+        return noise.white_noise(s["fs"], s["psd"], seed=s.get("seed", 0))
+    raise ValueError(k)
+
+
+def hist_describe(g, cls: str) -> Dict[str, Any]:
+    """the design quantities of a generator: name -> {"shape", "hex"} (exact); attributes the library does not have are left out"""
+    out: Dict[str, Any] = {}
+    for nm in HIST_QUANT[cls]:
+        o = g
+        try:
+            for part in nm.split("."):
+                o = getattr(o, part)
+            a = np.asarray(o, dtype=float)
+        except Exception:
+            continue
+        out[nm] = {"shape": list(a.shape), "hex": [float(v).hex() for v in a.reshape(-1)]}
+    return out
+
+
+def _spec_key(s: Dict[str, Any]) -> str:
+    # the design quantities are fixed before anything is drawn: the reference is built with init_filter=False (no settling run, no JIT in the child)
+    return repr([s["cls"]] + [s.get(k) for k in ("fs", "fmin", "fmax", "alpha", "psd")])
+
+
+def _fresh_main() -> None:
+    """helper process (see fresh_reference): reads a JSON list of construction specs on stdin; every spec is constructed in its own forked child,
+    i.e. alone, in the state the library has right after import; prints {"file": path of speckit.noise, "out": [description | {"error"} | None]}"""
+    import json
+    import os
+    import sys
+    noise = _noise()
+    specs = json.loads(sys.stdin.read())
+    out: List[Any] = []
+    for s in specs:
+        r, w = os.pipe()
+        pid = os.fork()
+        if pid == 0:
+            try:
+                os.close(r)
+                try:
+                    res: Any = hist_describe(hist_build(s), s["cls"])
+                except Exception as ex:
+                    res = {"error": repr(ex)}
+                buf = json.dumps(res).encode()
+                while buf:
+                    buf = buf[os.write(w, buf):]
+            finally:
+                os._exit(0)
+        os.close(w)
+        chunks = []
+        while True:
+            ch = os.read(r, 1 << 16)
+            if not ch:
+                break
+            chunks.append(ch)
+        os.close(r)
+        os.waitpid(pid, 0)
+        try:
+            out.append(json.loads(b"".join(chunks).decode()))
+        except Exception:
+            out.append(None)
+    sys.stdout.write(json.dumps({"file": os.path.abspath(noise.__file__), "out": out}))
+    sys.stdout.flush()
+
+
+def fresh_reference(P: C.Part, specs: List[Dict[str, Any]], timeout: float = 120.0) -> Dict[str, Any]:
+    """spec key -> description of that generator constructed alone in a fresh interpreter state ({} if the helper cannot be run)"""
+    import json
+    import os
+    import subprocess
+    import sys
+    uniq: Dict[str, Dict[str, Any]] = {}
+    for s in specs:
+        uniq.setdefault(_spec_key(s), dict(s, init=False, seed=0))
+    if not uniq or not hasattr(os, "fork"):
+        return {}
+    try:
+        here = os.path.abspath(_noise().__file__)
+        root = os.path.dirname(os.path.dirname(here))
+        code = "import sys; sys.path[:0] = [sys.argv[1], sys.argv[2]]; from vk.props import C18; C18._fresh_main()"
+        pr = subprocess.run([sys.executable, "-W", "ignore", "-c", code, root, C.VERIF], input=json.dumps(list(uniq.values())),
+                            capture_output=True, text=True, timeout=timeout)
+        data = json.loads(pr.stdout[pr.stdout.index("{"):])
+        if data.get("file") != here or len(data["out"]) != len(uniq):
+            P.notes.append(f"history: fresh-state helper imported {data.get('file')!r}, the check runs {here!r}: reference not used")
+            return {}
+        P.hit("history:fresh-references", len(uniq))
+        return {k: d for k, d in zip(uniq.keys(), data["out"]) if isinstance(d, dict)}
+    except Exception as ex:
+        P.notes.append(f"history: fresh-state helper not available ({ex!r}): members are checked against the design only")
+        return {}
+
+
+def _hist_member(rng: np.random.Generator, cls: str, fs: float, fmin: float, fmax: float, alpha: float) -> Dict[str, Any]:
+    if cls == "alpha" and alpha == 1.0 and rng.integers(0, 2) == 0:
+        cls = "pink"
+    s = {"op": "new", "cls": cls, "fs": float(fs), "fmin": float(fmin), "fmax": float(fmax), "alpha": float(alpha),
+         "psd": float(10.0 ** rng.uniform(-3, 3)), "seed": int(rng.integers(0, 2 ** 31)), "init": False}
+    if cls != "white" and 2.0 * fs / fmin <= 20000 and rng.integers(0, 3) == 0:
+        s["init"] = True                            # settling draws 2 fs/fmin samples: only where that is cheap
+    return s
+
+
+def history_from(rng: np.random.Generator, fam: int, fs0: float, fmin: float, fmax: float, alpha: float) -> Dict[str, Any]:
+    """a history around the base configuration (fs0 >= 2 fmax is the LOWEST sampling rate used).  Families:
+       0 same (fmin, fmax, alpha) at several sampling rates     1 same (fs, fmin, fmax), several exponents
+       2 same (fs, alpha), bands sharing fmin / fmax / the width (hence the section count)
+       3 mixed: every member changes a random subset of the four parameters; red_noise / white_noise at the same fs / fmin in between; exact repeats"""
+    def other_alpha():
+        return [0.01, 0.5, 1.0, 1.5, 2.0, float(rng.uniform(0.01, 2.0)), min(2.0, alpha * (1 + 1e-9)) if alpha < 2.0 else 2.0 - 1e-9][int(rng.integers(0, 7))]
+
+    def other_fs():
+        return fs0 * [4.0, 2.0, 16.0, 1.5, 1.0 + 1e-7, float(rng.uniform(1.0, 10.0)), 1000.0][int(rng.integers(0, 7))]
+
+    def other_band():
+        m = int(rng.integers(0, 5))
+        r = float(10.0 ** rng.uniform(0.1, 1.5))
+        if m == 0 and fmax / r > fmin * 1.5:
+            return fmin, fmax / r                   # same lower edge
+        if m == 1 and fmin * r < fmax / 1.5:
+            return fmin * r, fmax                   # same upper edge
+        if m == 2:
+            return fmin / r, fmax                   # same upper edge, wider
+        if m == 3:
+            return fmin / r, fmax / r               # same width (same section count, same corner ratios)
+        return fmin / 2.0, fmax / 2.0
+
+    mem: List[Dict[str, Any]] = []
+    k = int(rng.integers(2, 5))
+    if fam == 0:
+        rates = [fs0] + [other_fs() for _ in range(k)]
+        for j in rng.permutation(len(rates)):       # the lowest rate is not always the first one built
+            mem.append(_hist_member(rng, "alpha", rates[int(j)], fmin, fmax, alpha))
+    elif fam == 1:
+        als = [alpha] + [other_alpha() for _ in range(k)]
+        for j in rng.permutation(len(als)):
+            mem.append(_hist_member(rng, "alpha", fs0, fmin, fmax, als[int(j)]))
+    elif fam == 2:
+        bands = [(fmin, fmax)] + [other_band() for _ in range(k)]
+        for j in rng.permutation(len(bands)):
+            mem.append(_hist_member(rng, "alpha", fs0, bands[int(j)][0], bands[int(j)][1], alpha))
+    else:
+        mem.append(_hist_member(rng, "alpha", fs0, fmin, fmax, alpha))
+        for _ in range(k + 2):
+            t = int(rng.integers(0, 9))
+            if t <= 1:
+                mem.append(_hist_member(rng, "red", fs0 if rng.integers(0, 2) else other_fs(), fmin, fmax, 2.0))
+            elif t == 2:
+                mem.append(_hist_member(rng, "white", fs0 if rng.integers(0, 2) else other_fs(), fmin, fmax, 0.0))
+            elif t == 3:
+                mem.append(dict(mem[int(rng.integers(0, len(mem)))], seed=int(rng.integers(0, 2 ** 31))))      # exact repeat of an earlier member
+            else:
+                lo, hi = other_band() if rng.integers(0, 3) == 0 else (fmin, fmax)
+                mem.append(_hist_member(rng, "alpha", other_fs() if rng.integers(0, 2) else fs0, lo, hi, other_alpha() if rng.integers(0, 2) else alpha))
+    steps: List[Dict[str, Any]] = []
+    for j, s in enumerate(mem):
+        steps.append(s)
+        if rng.integers(0, 2) == 0:                 # interleave construction and use
+            steps.append({"op": "use", "m": int(rng.integers(0, j + 1)), "n": int([0, 1, 5, 64, 500][int(rng.integers(0, 5))]),
+                          "via": "sample" if rng.integers(0, 4) == 0 else "series"})
+    return {"kind": "history", "family": int(fam), "steps": steps}
+
+
+def history_case(rng: np.random.Generator, fam: Optional[int] = None) -> Dict[str, Any]:
+    fam = int(rng.integers(0, 4)) if fam is None else fam
+    fmax = float(10.0 ** rng.uniform(-1.0, 4.0))
+    fmin = fmax / float(10.0 ** rng.uniform(0.3, 3.5))
+    alpha = [1.0, 1.5, 2.0, 0.5, 0.01, float(rng.uniform(0.01, 2.0)), float(rng.uniform(0.01, 2.0))][int(rng.integers(0, 7))]
+    fs0 = fmax * [2.0, float(rng.uniform(2.0, 8.0)), float(10.0 ** rng.uniform(0.3, 1.5))][int(rng.integers(0, 3))]
+    return history_from(rng, fam, fs0, fmin, fmax, alpha)
+
+
+def _new(cls, fs, fmin, fmax, alpha, init=False):
+    return {"op": "new", "cls": cls, "fs": fs, "fmin": fmin, "fmax": fmax, "alpha": alpha, "psd": 1.0, "seed": 7, "init": init}
+
+
+HIST_CORPUS = [
+    # witness of seeded C18c (coefficients memoised by the corner arrays, sampling rate not in the key): one band and exponent at three rates
+    {"kind": "history", "family": 0, "steps": [_new("alpha", 1000.0, 5.0, 100.0, 1.0), _new("alpha", 4000.0, 5.0, 100.0, 1.0), _new("alpha", 250.0, 5.0, 100.0, 1.0)]},
+    {"kind": "history", "family": 0, "steps": [_new("pink", 4000.0, 5.0, 100.0, 1.0), {"op": "use", "m": 0, "n": 64, "via": "series"}, _new("alpha", 1000.0, 5.0, 100.0, 1.0),
+                                                _new("pink", 250.0, 5.0, 100.0, 1.0, True), _new("alpha", 4000.0, 5.0, 100.0, 1.0)]},
+    {"kind": "history", "family": 1, "steps": [_new("alpha", 1000.0, 5.0, 100.0, 1.5), _new("alpha", 1000.0, 5.0, 100.0, 0.5), {"op": "use", "m": 0, "n": 5, "via": "sample"},
+                                                _new("pink", 1000.0, 5.0, 100.0, 1.0), _new("alpha", 1000.0, 5.0, 100.0, 2.0)]},
+    {"kind": "history", "family": 2, "steps": [_new("alpha", 1000.0, 5.0, 100.0, 1.0), _new("alpha", 1000.0, 5.0, 400.0, 1.0), _new("alpha", 1000.0, 0.5, 100.0, 1.0),
+                                                _new("alpha", 1000.0, 0.5, 10.0, 1.0)]},
+    {"kind": "history", "family": 3, "steps": [_new("red", 1000.0, 5.0, 100.0, 2.0), _new("alpha", 1000.0, 5.0, 100.0, 2.0), _new("red", 4000.0, 5.0, 100.0, 2.0),
+                                                _new("white", 1000.0, 5.0, 100.0, 0.0), {"op": "use", "m": 0, "n": 500, "via": "series"}, _new("alpha", 4000.0, 5.0, 100.0, 2.0),
+                                                _new("white", 4000.0, 5.0, 100.0, 0.0), _new("red", 1000.0, 50.0, 100.0, 2.0)]},
+]
+
+
+def history_members(h: Dict[str, Any]) -> List[Dict[str, Any]]:
+    return [s for s in h["steps"] if s.get("op") == "new"]
+
+
+def check_history(P: C.Part, h: Dict[str, Any], fresh: Optional[Dict[str, Any]] = None, nfreq: int = 96, impulse_max: int = 20000) -> None:
+    fresh = fresh or {}
+    rep = {"kind": "history", "family": h.get("family", -1), "steps": [dict(s) for s in h["steps"]]}
+    gens: List[Any] = []
+    specs: List[Dict[str, Any]] = []
+    used: List[bool] = []
+    P.cases += 1
+    P.hit(f"history:family{h.get('family', -1)}")
+    for s in h["steps"]:
+        if s["op"] == "new":
+            try:
+                gens.append(hist_build(s))
+            except Exception as ex:
+                _viol(P, f"history, member {len(gens)} of {len(history_members(h))}: {s['cls']}(fs={s['fs']}, fmin={s['fmin']}, fmax={s['fmax']}, alpha={s['alpha']}) raised {ex!r} "
+                         f"for valid parameters after {len(gens)} earlier constructions", {"sub": "history-construct", "cls": s["cls"]}, dict(rep, member=len(gens)))
+                return
+            specs.append(s)
+            used.append(bool(s.get("init")))
+        else:
+            g = gens[s["m"]]
+            used[s["m"]] = True
+            if s["via"] == "sample":
+                for _ in range(s["n"]):
+                    g.get_sample()
+            else:
+                g.get_series(s["n"])
+            P.hit("history:use-steps")
+    colored = [s for s in specs if s["cls"] in ("alpha", "pink")]
+    if len(colored) >= 2:
+        P.nontrivial.add(("history", h.get("family", -1), len(specs), len({s["fs"] for s in colored}), len({s["alpha"] for s in colored}),
+                          len({(s["fmin"], s["fmax"]) for s in colored}), any(used)))
+    for m, (g, s) in enumerate(zip(gens, specs)):
+        cls = s["cls"]
+        pre = f"history of {len(specs)} generators in one process, member {m} ({cls}): "
+        mrep = dict(rep, member=m)
+        P.hit(f"history:member-{cls}")
+        nv = len(P.violations)
+        # (3) the same constructor call made alone in a fresh state
+        ref = fresh.get(_spec_key(s))
+        if ref is not None and "error" not in ref:
+            now = hist_describe(g, cls)
+            for nm in HIST_QUANT[cls]:
+                if nm not in ref or nm not in now:
+                    continue
+                P.cases += 1
+                a = np.array([float.fromhex(v) for v in now[nm]["hex"]])
+                b = np.array([float.fromhex(v) for v in ref[nm]["hex"]])
+                if now[nm]["shape"] != ref[nm]["shape"]:
+                    _viol(P, f"{pre}(fs={s['fs']}, fmin={s['fmin']}, fmax={s['fmax']}, alpha={s['alpha']}): {nm} has shape {now[nm]['shape']}, the same generator constructed alone "
+                             f"in a fresh process has {ref[nm]['shape']}", {"sub": "history-fresh", "what": nm, "cls": cls}, mrep)
+                    break
+                d = np.abs(a - b)
+                tol = 4 * U * np.maximum(1.0, np.abs(b))
+                if not np.all(d <= tol):
+                    j = int(np.argmax(d - tol))
+                    _viol(P, f"{pre}(fs={s['fs']}, fmin={s['fmin']}, fmax={s['fmax']}, alpha={s['alpha']}): {nm}[{j}] = {float(a[j])!r}, the same generator constructed alone in a "
+                             f"fresh process has {float(b[j])!r}", {"sub": "history-fresh", "what": nm, "cls": cls}, mrep)
+                    break
+        elif ref is not None:
+            P.cases += 1
+            _viol(P, f"{pre}(fs={s['fs']}, fmin={s['fmin']}, fmax={s['fmax']}, alpha={s['alpha']}) was constructed in the history but raises {ref['error']} when constructed alone "
+                     f"in a fresh process", {"sub": "history-fresh", "what": "construct", "cls": cls}, mrep)
+        # (1) / (2) the property's own predicates on the member as it stands
+        if cls in ("alpha", "pink") and len(P.violations) == nv:
+            check_alpha(P, {"fs": s["fs"], "fmin": s["fmin"], "fmax": s["fmax"], "alpha": 1.0 if cls == "pink" else s["alpha"], "pink": cls == "pink"},
+                        nfreq=nfreq, impulse_max=impulse_max, g=g, rep=mrep, pre=pre, pristine=not used[m])
+        elif cls == "white":
+            P.cases += 1
+            v = float(g.rms) ** 2
+            if not (abs(v - s["psd"] * s["fs"]) <= 8 * U * s["psd"] * s["fs"] and float(g.fs) == s["fs"]):
+                _viol(P, f"{pre}white_noise(fs={s['fs']!r}, psd={s['psd']!r}): rms^2 = {v!r}, expected psd*fs = {s['psd'] * s['fs']!r}", {"sub": "white-rms", "history": True}, mrep)
+
+
 # ------------------------------------------------------------------------------------------------ oracle
 FFT_SIZES_SMALL = list(range(2, 66))
 
@@ -655,6 +996,25 @@ def oracle(ctx, intensive: bool = False, hints=()) -> C.Part:
     P = C.Part()
     mult = 4 if intensive else 1
     rng = ctx.rng
+
+    # --- call histories: several generators sharing some parameters in one process, every member checked (corpus, around the hints, generated)
+    hcases = [{"kind": "history", "family": h["family"], "steps": [dict(s) for s in h["steps"]]} for h in HIST_CORPUS]
+    nh = 0
+    for h in hints or ():
+        cc = h.get("case") if isinstance(h, dict) else None
+        if isinstance(cc, dict) and cc.get("kind") == "alpha" and nh < 6 and cc["fs"] >= 2.0 * cc["fmax"] and 0.01 <= cc["alpha"] <= 2.0:
+            nh += 1
+            hcases.append(history_from(rng, 0 if nh % 2 else 3, cc["fs"], cc["fmin"], cc["fmax"], cc["alpha"]))
+    for i in range(ctx.scale(24, 240) * mult):
+        hcases.append(history_case(rng, fam=i % 4))
+    fresh = fresh_reference(P, [s for h in hcases for s in history_members(h)])
+    for i, h in enumerate(hcases):
+        if ctx.time_left() < 60 or len(P.violations) >= 8:
+            P.notes.append("history: stopped early (time budget or enough violations)")
+            break
+        check_history(P, h, fresh, nfreq=ctx.scale(96, 200), impulse_max=ctx.scale(20000, 60000))
+        if i == len(HIST_CORPUS):
+            P.sample({"op": "history", "family": h["family"], "steps": h["steps"]})
 
     # --- alpha filter: corpus, hints, then generated cases
     cases = [dict(c) for c in ALPHA_CORPUS]
@@ -704,6 +1064,8 @@ def oracle(ctx, intensive: bool = False, hints=()) -> C.Part:
             bcases.append({**{k: cc[k] for k in ("N", "fs", "lo", "hi")}, "exact": False, "edge_mode": 6, "seed": 0, "rng_none": False})
     for i in range(ctx.scale(600, 6000) * mult):
         bcases.append(band_case(rng))
+        if i % 8 == 0:                              # the same call with ONE argument changed, back to back (history: nothing may be remembered from the previous call)
+            bcases.extend(band_siblings(rng, bcases[-1]))
     for i, c in enumerate(bcases):
         if ctx.time_left() < 15 or len(P.violations) >= 24:
             P.notes.append("band: stopped early")
@@ -922,6 +1284,9 @@ def replay(ctx, data) -> C.Part:
             check_band(P, {k2: r[k2] for k2 in ("N", "fs", "lo", "hi", "exact", "edge_mode", "seed", "rng_none")})
         elif k == "white":
             check_white(P, {k2: r[k2] for k2 in ("fs", "psd", "seed", "n")})
+        elif k == "history":
+            h = {"kind": "history", "family": r.get("family", -1), "steps": r["steps"]}
+            check_history(P, h, fresh_reference(P, history_members(h)), nfreq=200, impulse_max=60000)
     return P
 
 
